@@ -584,6 +584,15 @@ func adversarySearch(c *harn.Ctx, r *harn.Result, roles []string, typed bool, de
 								kind = "replayed-join-accepted"
 							}
 						}
+						honest := func(v string) bool {
+							return x.k.src[v] == "recorded" || strings.HasPrefix(x.k.src[v], "session")
+						}
+						if kind == "forged-join-accepted" && honest(j.Digest) && honest(j.Salt) && honest(j.ConnectionID) {
+							// all three fields are values that honest sessions put on the wire in OTHER messages: the
+							// digest of a second Hello, H(salt2:digest1:cookie), has the very shape of a join digest,
+							// H(id:salt:cookie)
+							kind = "join-assembled-from-handshake-values"
+						}
 					} else if oracle {
 						// the digests the victim checked on the way: all must stem from the honest oracle session
 						relayed := true
